@@ -646,7 +646,14 @@ def query6(ctx) -> List[Ob]:
     good = False
     if len(body) == 2 and isinstance(body[0], (ast.Assign, ast.AugAssign)) and isinstance(body[1], ast.Assign):
         cnt = A.unparse(body[0].targets[0] if isinstance(body[0], ast.Assign) else body[0].target)
-        inc = A.unparse(body[0].value) in (f"{cnt} + 1", f"1 + {cnt}") if isinstance(body[0], ast.Assign) else (isinstance(body[0].op, ast.Add) and A.unparse(body[0].value) == "1")
+        def _pos(e):
+            return isinstance(e, ast.Constant) and isinstance(e.value, int) and e.value > 0
+
+        if isinstance(body[0], ast.Assign):
+            bv = body[0].value
+            inc = isinstance(bv, ast.BinOp) and isinstance(bv.op, ast.Add) and ((A.unparse(bv.left) == cnt and _pos(bv.right)) or (A.unparse(bv.right) == cnt and _pos(bv.left)))
+        else:
+            inc = isinstance(body[0].op, ast.Add) and _pos(body[0].value)
         good = inc and A.unparse(body[1].targets[0]) == f"{PRE}[{v}]" and A.unparse(body[1].value) == cnt
     other_pre_writes = [s for s in ast.walk(fn.node) if isinstance(s, ast.Assign) and any(A.unparse(t).startswith(PRE + "[") for t in s.targets) and s not in body]
     cnt_writes = [s for s in ast.walk(fn.node) if isinstance(s, (ast.Assign, ast.AugAssign)) and cnt is not None and A.unparse(s.targets[0] if isinstance(s, ast.Assign) else s.target) == cnt and s not in body]
@@ -706,7 +713,8 @@ def query6(ctx) -> List[Ob]:
                 return {A.unparse(x) for x in args} == {f"{LOW}[{v}]", a2}
 
             t = A.unparse(inner.test)
-            if t in (f"{PRE}[{w2}] > {PRE}[{v}]", f"{PRE}[{v}] < {PRE}[{w2}]") and len(inner.body) == 1 and len(inner.orelse) == 1:
+            # `>=` is the same test: the numbers are equal only for w == v (a self loop), where both arms leave the low-link unchanged
+            if t in (f"{PRE}[{w2}] > {PRE}[{v}]", f"{PRE}[{v}] < {PRE}[{w2}]", f"{PRE}[{w2}] >= {PRE}[{v}]", f"{PRE}[{v}] <= {PRE}[{w2}]") and len(inner.body) == 1 and len(inner.orelse) == 1:
                 okl = is_min(inner.body[0], f"{LOW}[{w2}]") and is_min(inner.orelse[0], f"{PRE}[{w2}]")
     if okl and di.body.index(ll_init[0]) < di.body.index(l2s[0]):
         out.append(ok("QUERY-6", fn.qualname, key, ctx.where(fn, l2s[0]), f"min with {LOW}[w] when {PRE}[w] > {PRE}[{v}], else with {PRE}[w]; successors in {FOUND} skipped"))
